@@ -4,7 +4,7 @@
 Require Extraction.
 Require Import ExtrOcamlBasic.
 From Redo Require Import Base.Bytes Paths.Norm Paths.Rel DoFiles.Candidates LogRec.Meta Build.Model.
-From Redo Require Tokens.Model Sched.Locks LogRec.Catlog.
+From Redo Require Tokens.Model Sched.Locks Sched.OnceRun LogRec.Catlog.
 
 Extraction Language OCaml.
 Extraction "model.ml"
@@ -14,4 +14,5 @@ Extraction "model.ml"
   init_world run_history read_stamp first_runid stamp_eqb
   Tokens.Model.apply Tokens.Model.init Tokens.Model.Q Tokens.Model.find
   Sched.Locks.lapply Sched.Locks.empty
-  LogRec.Catlog.run_log LogRec.Catlog.render_ev.
+  LogRec.Catlog.run_log LogRec.Catlog.render_ev
+  Sched.OnceRun.oapply Sched.OnceRun.oinit Sched.OnceRun.olookup.
